@@ -213,7 +213,7 @@ def run_shard(shard, tier, seed):
     strat = strategies.run_spec(shard["optimizer"], task=strategies.task_spec(),
                                 config=strategies.config_spec(shard["optimizer"],
                                                               max_cycles=(1, 8 if tier == "quick" else 25)),
-                                modes=("serial",))
+                                modes=("serial",), warmup=0.2)
     return campaign.run_shard(ID, shard, seed, strat, judge_real,
                               observe_kwargs={"keep_snaps": True, "snapshots_cfg": False})
 
